@@ -68,8 +68,10 @@ func NewSnippet(b []byte, opts ...SnippetOption) *Snippet {
 	linesHighlighted := strings.Split(buf.String(), "\n")
 
 	// Work out the start and end lines of the snippet
+	numLines := min(len(linesRaw), len(linesHighlighted))
 	snippet.start = max(snippet.line-snippet.padding, 1)
-	snippet.end = min(snippet.line+snippet.padding, len(linesRaw)-1)
+	snippet.end = max(min(snippet.line+snippet.padding, numLines-1), 0)
+	snippet.start = min(snippet.start, snippet.end+1)
 	snippet.linesRaw = linesRaw[snippet.start-1 : snippet.end]
 	snippet.linesHighlighted = linesHighlighted[snippet.start-1 : snippet.end]
 
